@@ -25,8 +25,8 @@ type c19Case struct {
 	G        *gcase.Graph `json:"g"`
 	Input    string       `json:"input"`
 	InChunks []int        `json:"inChunks"`
-	Paradigm string       `json:"paradigm"` // stream | transform
-	Consume  int          `json:"consume"`  // -1: read to the end; k >= 0: read k chunks then close
+	Paradigm string       `json:"paradigm"`           // stream | transform
+	Consume  int          `json:"consume"`            // -1: read to the end; k >= 0: read k chunks then close
 	Handlers []string     `json:"handlers,omitempty"` // callback handlers of the run (see c19Handlers)
 }
 
@@ -39,8 +39,12 @@ func c19Handlers(kinds []string) []callbacks.Handler {
 		hb := callbacks.NewHandlerBuilder()
 		switch k {
 		case "plain":
-			hb = hb.OnStartFn(func(ctx context.Context, info *callbacks.RunInfo, in callbacks.CallbackInput) context.Context { return ctx }).
-				OnEndFn(func(ctx context.Context, info *callbacks.RunInfo, out callbacks.CallbackOutput) context.Context { return ctx })
+			hb = hb.OnStartFn(func(ctx context.Context, info *callbacks.RunInfo, in callbacks.CallbackInput) context.Context {
+				return ctx
+			}).
+				OnEndFn(func(ctx context.Context, info *callbacks.RunInfo, out callbacks.CallbackOutput) context.Context {
+					return ctx
+				})
 		case "out-close":
 			hb = hb.OnEndWithStreamOutputFn(func(ctx context.Context, info *callbacks.RunInfo, out *schema.StreamReader[callbacks.CallbackOutput]) context.Context {
 				out.Close()
